@@ -1,6 +1,6 @@
 use anyhow::{anyhow, bail, Context, Result};
 use crate::coord::{MavenCoord, Types};
-use crate::maven_pom::{Dependencies, DependencyManagement, MavenPom};
+use crate::maven_pom::{Dependency, DependencyManagement, MavenPom};
 use crate::{Downloader, DependencyScope};
 use crate::resolver::{Resolver, try_get_pom_for};
 
@@ -10,7 +10,11 @@ pub(crate) struct MavenPomDone {
 	pub(crate) coord: MavenCoord,
 
 	pub(crate) dependency_management: Vec<DependencyDone>,
+	/// Filled in by [get_merged_pom] for the pom asked for; empty while merging up the parent chain.
 	pub(crate) dependencies: Vec<DependencyDone>,
+	/// The `<dependencies>` of this pom followed by the ones of its parents, as written: what they omit is
+	/// filled in from the management of the pom that finally inherits them, not of the one declaring them.
+	raw_dependencies: Vec<Dependency<DependencyScope>>,
 }
 
 #[derive(Debug, Clone)]
@@ -53,8 +57,11 @@ pub(crate) async fn get_merged_pom<'a>(downloader: &(impl Downloader + Sync), re
 		parent = Some(merged);
 	}
 
-	let merged = merge_parent(downloader, resolvers, parent, pom).await
+	let mut merged = merge_parent(downloader, resolvers, parent, pom).await
 		.with_context(|| anyhow!("merging parent and child for child from {resolver:?} and {coord}"))?;
+
+	merged.dependencies = make_dependencies(&merged.dependency_management, &merged.raw_dependencies)
+		.with_context(|| anyhow!("while creating `dependencies` for {coord}"))?;
 
 	Ok((resolver, merged))
 }
@@ -83,12 +90,11 @@ async fn merge_parent(downloader: &(impl Downloader + Sync), resolvers: &[Resolv
 		).await
 			.with_context(|| anyhow!("while creating `dependency_management` for {coord} (with a real parent)"))?;
 
-		let dependencies = make_dependencies(
-			&dependency_management, child.dependencies, Some(parent.dependencies)
-		)
-			.with_context(|| anyhow!("while creating `dependencies` for {coord} (with a real parent)"))?;
+		let raw_dependencies = child.dependencies.map_or_else(Vec::new, |x| x.dependency).into_iter()
+			.chain(parent.raw_dependencies)
+			.collect();
 
-		Ok(MavenPomDone { coord, dependency_management, dependencies })
+		Ok(MavenPomDone { coord, dependency_management, dependencies: Vec::new(), raw_dependencies })
 	} else {
 		// inherit from super pom from https://maven.apache.org/ref/3.9.8/maven-model-builder/super-pom.html
 
@@ -106,14 +112,9 @@ async fn merge_parent(downloader: &(impl Downloader + Sync), resolvers: &[Resolv
 		).await
 			.with_context(|| anyhow!("while creating `dependency_management` for {coord} (parent is super pom)"))?;
 
-		let dependencies = make_dependencies(
-			&dependency_management,
-			child.dependencies,
-			None
-		)
-			.with_context(|| anyhow!("while creating `dependencies` for {coord} (parent is super pom)"))?;
+		let raw_dependencies = child.dependencies.map_or_else(Vec::new, |x| x.dependency);
 
-		Ok(MavenPomDone { coord, dependency_management, dependencies })
+		Ok(MavenPomDone { coord, dependency_management, dependencies: Vec::new(), raw_dependencies })
 	}
 }
 
@@ -169,12 +170,9 @@ async fn make_dependency_management(downloader: &(impl Downloader + Sync), resol
 
 fn make_dependencies(
 	dependency_management: &[DependencyDone],
-	child_dependencies: Option<Dependencies<DependencyScope>>,
-	parent_dependencies: Option<Vec<DependencyDone>>,
+	raw_dependencies: &[Dependency<DependencyScope>],
 ) -> Result<Vec<DependencyDone>> {
-	let parent_dependencies = parent_dependencies.unwrap_or_default();
-
-	child_dependencies.map_or_else(Vec::new, |x| x.dependency).into_iter()
+	raw_dependencies.iter().cloned()
 		.map(|x| {
 			let group = x.group_id;
 			let artifact = x.artifact_id;
@@ -206,8 +204,6 @@ fn make_dependencies(
 				}
 			}
 		})
-		// TODO: also properly merge with parent? (appending the parent deps directly is wrong)
-		.chain(parent_dependencies.into_iter().map(Ok))
 		.collect::<Result<_>>()
 }
 
